@@ -60,6 +60,10 @@ const (
 	timeout   = 2 * time.Minute
 	finalizer = "defined.apiextensions.crossplane.io"
 
+	// offeredFinalizer is the finalizer the offered controller holds on an XRD
+	// while the claim CRD, claim controller or any claim still exists.
+	offeredFinalizer = "offered.apiextensions.crossplane.io"
+
 	errGetXRD                         = "cannot get CompositeResourceDefinition"
 	errRenderCRD                      = "cannot render composite resource CustomResourceDefinition"
 	errGetCRD                         = "cannot get composite resource CustomResourceDefinition"
@@ -80,8 +84,9 @@ const (
 
 // Wait strings.
 const (
-	waitCRDelete     = "waiting for defined composite resources to be deleted"
-	waitCRDEstablish = "waiting for composite resource CustomResourceDefinition to be established"
+	waitCRDelete      = "waiting for defined composite resources to be deleted"
+	waitClaimsOffered = "waiting for offered composite resource claims to be torn down"
+	waitCRDEstablish  = "waiting for composite resource CustomResourceDefinition to be established"
 )
 
 // Event reasons.
@@ -365,6 +370,20 @@ func (r *Reconciler) Reconcile(ctx context.Context, req reconcile.Request) (reco
 			// finalizer. There's no need to requeue because there's
 			// nothing left to do.
 			return reconcile.Result{Requeue: false}, nil
+		}
+
+		// The controller for the claims this XRD offers (if any) is torn
+		// down by the offered controller, which removes its finalizer once
+		// every claim is gone, the claim controller is stopped and the claim
+		// CRD is deleted. Until then a live claim whose composite resource we
+		// delete below is simply given a new one by its controller, possibly
+		// after we listed the composite resources and before we delete their
+		// CRD. Claims also need the composite resource controller (and CRD)
+		// to finish their own deletion, so wait for the claim side first.
+		if d.OffersClaim() && meta.FinalizerExists(d, offeredFinalizer) {
+			log.Debug(waitClaimsOffered)
+			r.record.Event(d, event.Normal(reasonTerminateXR, waitClaimsOffered))
+			return reconcile.Result{Requeue: true}, nil
 		}
 
 		// NOTE(muvaf): When user deletes CompositeResourceDefinition
